@@ -129,4 +129,14 @@ theorem chosen_nodup (bat : List Nat) (k : Nat) : (chosen bat k).Nodup := by
 theorem chosen_never_reserved (bat : List Nat) (k : Nat) : ∀ b ∈ chosen bat k, isReserved (bat.getD b 0) = false :=
   fun b hb => free_not_reserved _ (chosen_free bat k b hb).2
 
+/-- the block count the injector announces, in closed form -/
+theorem reqBlocks_formula (n : Nat) : reqBlocks n = (max 1 ((n + 254) / 255) + 7) / 8 := by
+  obtain ⟨h1, h2, h3, h4, h5, h6, h7⟩ := size_law n
+  by_cases hn : 0 < n
+  · have := h7 hn
+    omega
+  · have : n = 0 := by omega
+    subst this
+    simp [reqBlocks, layoutOf, computeRequiredSlots]
+
 end Moto.Disk
